@@ -47,7 +47,7 @@ public:
 };
 static TestRegistry* reg_;
 static TestResult* res_;
-static TestFilter gf_[2], nf_[2];
+static TestFilter gf_[3], nf_[3];
 
 static int plainSetJmp(void (*f)(void*), void* d) { f(d); return 1; }   // the jump machinery is property C01
 
@@ -80,8 +80,10 @@ void h_set_filter(int isName, int slot, const char* text, int strict, int invert
 }
 void h_install_filters(int ngroup, int nname)
 {
-    if (ngroup == 2) gf_[0].add(&gf_[1]);
-    if (nname == 2) nf_[0].add(&nf_[1]);
+    if (ngroup >= 2) gf_[0].add(&gf_[1]);
+    if (ngroup >= 3) gf_[1].add(&gf_[2]);
+    if (nname >= 2) nf_[0].add(&nf_[1]);
+    if (nname >= 3) nf_[1].add(&nf_[2]);
     reg_->setGroupFilters(ngroup ? &gf_[0] : 0);
     reg_->setNameFilters(nname ? &nf_[0] : 0);
 }
